@@ -9667,3 +9667,706 @@ func extraC02HeaderCopyUnconditional(c *Ctx, r *Report) {
 	addMutants(Mutant{Prop: "C02", Name: "header-copy-skips-already-set", File: "internal/adapter/proxy/sherpa/service_retry.go", Rule: "C02-R15",
 		Old: "			w.Header().Add(key, value)\n", New: "			if w.Header().Get(key) == \"\" {\n				w.Header().Add(key, value)\n			}\n"})
 }
+
+// ---------- C01-R17 / C16-R13: the upstream path is built from URL.Path, the only place the route prefix was removed ----------
+func init() {
+	registerExtra("C01", func(c *Ctx, r *Report) { extraBuilderReadsPathOnly(c, r, "C01-R17") })
+	registerExtra("C16", func(c *Ctx, r *Report) { extraBuilderReadsPathOnly(c, r, "C16-R13") })
+}
+
+func extraBuilderReadsPathOnly(c *Ctx, r *Report, rule string) {
+	r.Rule(rule, "the function that builds the upstream URL (and the helpers of its package it calls) takes the request's path from URL.Path only: it does not read the inbound request's URL.RawPath or RequestURI, nor call EscapedPath() / RequestURI() / String() on the request's URL. The handlers remove the route prefix by assigning URL.Path; every other rendering of the path still carries /olla/<route>/ — a builder that prefers RawPath when the client escaped something (%3A, %2F) sends those requests upstream with the route prefix still on", 1)
+	bt := findBuildTargetURL(c)
+	if bt == nil {
+		r.Unresolved(rule, "URL builder")
+		return
+	}
+	var bad ssa.Instruction
+	what := ""
+	reqURL := func(v ssa.Value) bool { return mentionsField(v, "net/http", "Request", "URL", 3) }
+	for _, g := range withHelpers(bt, 2) {
+		eachInstr(g, func(in ssa.Instruction) {
+			if bad != nil {
+				return
+			}
+			switch x := in.(type) {
+			case *ssa.UnOp:
+				if fa, ok := x.X.(*ssa.FieldAddr); ok && x.Op == token.MUL {
+					if isField(fa, "net/url", "URL", "RawPath") && reqURL(fa.X) {
+						bad, what = in, "URL.RawPath"
+					}
+					if isField(fa, "net/http", "Request", "RequestURI") {
+						bad, what = in, "Request.RequestURI"
+					}
+				}
+			case *ssa.Call:
+				ci := describeCall(&x.Call)
+				if ci.Pkg == "net/url" && ci.Recv == "URL" && (ci.Name == "EscapedPath" || ci.Name == "RequestURI" || ci.Name == "String") && len(x.Call.Args) > 0 && reqURL(x.Call.Args[0]) {
+					bad, what = in, "URL."+ci.Name+"()"
+				}
+			}
+		})
+	}
+	key := fname(bt) + ":path-from-URL.Path-only"
+	if bad != nil {
+		r.Bad(rule, key, bad.Pos(), "the URL builder reads the inbound request's "+what+": the route prefix was removed from URL.Path only, so a path taken from there reaches the backend as /olla/<route>/… (for exactly the requests whose path the client escaped)")
+	} else {
+		r.OK(rule, key, bt.Pos(), "the builder reads URL.Path (and RawQuery) only")
+	}
+	addMutants(Mutant{Prop: rule[:3], Name: "builder-prefers-rawpath", File: "internal/adapter/proxy/common/url_builder.go", Rule: rule,
+		Old: "	if targetPath == \"\" {\n		targetPath = \"/\"\n	}\n", New: "	if targetPath == \"\" {\n		targetPath = \"/\"\n	}\n	if r.URL.RawPath != \"\" {\n		if dec, derr := url.PathUnescape(util.StripPrefix(r.URL.RawPath, proxyPrefix)); derr == nil && dec != \"\" {\n			targetPath = dec\n		}\n	}\n"})
+}
+
+// ---------- C01-R18 / C14-R13: nobody edits the bytes of a body it was merely shown ----------
+func init() {
+	registerExtra("C01", func(c *Ctx, r *Report) { extraNoWriteIntoBodyParam(c, r, "C01-R18") })
+	registerExtra("C14", func(c *Ctx, r *Report) { extraNoWriteIntoBodyParam(c, r, "C14-R13") })
+}
+
+func extraNoWriteIntoBodyParam(c *Ctx, r *Report, rule string) {
+	r.Rule(rule, "in the packages that look at a request or response body on its way through (inspector, translator, handlers, middleware, security) no function stores into an element of a []byte it received as a parameter — directly, through a sub-slice, or via copy(param[…], …) — and none hands such a parameter to a function that does: the passthrough path gives the inspector the very slice it forwards to the backend, so a redaction or normalisation 'for the log' rewrites the request the backend receives", 0)
+	inScope := func(pp string) bool {
+		return strings.Contains(pp, "/adapter/inspector") || strings.Contains(pp, "/adapter/translator") || strings.HasSuffix(pp, pkgHandlers) || strings.Contains(pp, "/app/middleware") || strings.Contains(pp, "/adapter/security")
+	}
+	isBytes := func(t types.Type) bool {
+		sl, ok := t.Underlying().(*types.Slice)
+		if !ok {
+			return false
+		}
+		b, ok := sl.Elem().Underlying().(*types.Basic)
+		return ok && b.Kind() == types.Byte
+	}
+	// writesParam(f): indexes of []byte parameters f writes into
+	memo := map[*ssa.Function]map[int]token.Pos{}
+	var writes func(f *ssa.Function, d int) map[int]token.Pos
+	writes = func(f *ssa.Function, d int) map[int]token.Pos {
+		if m, ok := memo[f]; ok {
+			return m
+		}
+		m := map[int]token.Pos{}
+		memo[f] = m
+		if f.Blocks == nil || d == 0 {
+			return m
+		}
+		paramOf := func(v ssa.Value) int {
+			for i := 0; i < 6 && v != nil; i++ {
+				switch x := v.(type) {
+				case *ssa.Parameter:
+					if !isBytes(x.Type()) {
+						return -1
+					}
+					for k, p := range f.Params {
+						if p == x {
+							return k
+						}
+					}
+					return -1
+				case *ssa.Slice:
+					v = x.X
+				case *ssa.ChangeType:
+					v = x.X
+				case *ssa.Convert:
+					if !isBytes(x.X.Type()) {
+						return -1 // string(b) / []byte(s) copy
+					}
+					v = x.X
+				default:
+					return -1
+				}
+			}
+			return -1
+		}
+		eachInstr(f, func(in ssa.Instruction) {
+			switch x := in.(type) {
+			case *ssa.Store:
+				if ia, ok := x.Addr.(*ssa.IndexAddr); ok {
+					if k := paramOf(ia.X); k >= 0 {
+						m[k] = in.Pos()
+					}
+				}
+			case *ssa.Call:
+				if b, ok := x.Call.Value.(*ssa.Builtin); ok && b.Name() == "copy" && len(x.Call.Args) == 2 {
+					if k := paramOf(x.Call.Args[0]); k >= 0 {
+						m[k] = in.Pos()
+					}
+				}
+				if sc := x.Call.StaticCallee(); sc != nil && c.inRepo(sc) && sc != f {
+					cw := writes(sc, d-1)
+					for i, a := range x.Call.Args {
+						if _, w := cw[i]; w {
+							if k := paramOf(a); k >= 0 {
+								m[k] = in.Pos()
+							}
+						}
+					}
+				}
+			}
+		})
+		return m
+	}
+	n := 0
+	for _, f := range c.Funcs {
+		if !inScope(fnPkgPath(f)) || f.Blocks == nil {
+			continue
+		}
+		for k, pos := range writes(f, 3) {
+			n++
+			r.Bad(rule, fmt.Sprintf("%s:writes-into-param-%s", fname(f), f.Params[k].Name()), pos, "the function overwrites bytes of the []byte it was handed ("+f.Params[k].Name()+"): callers on the passthrough path forward that same slice to the backend, so the body the backend receives is no longer the one the client sent")
+		}
+	}
+	if n == 0 {
+		r.Triv(rule, "writes-into-body-params", token.NoPos, "no function of the body-handling packages writes into a []byte parameter")
+	}
+	addMutants(Mutant{Prop: rule[:3], Name: "inspector-masks-body-in-place", File: "internal/adapter/inspector/simple.go", Rule: rule,
+		Old: "func (s *Simple) LogRequest(sessionID, model string, body []byte) error {\n", New: "func (s *Simple) LogRequest(sessionID, model string, body []byte) error {\n	for i := range body {\n		if body[i] == '\\t' {\n			body[i] = ' '\n		}\n	}\n"})
+}
+
+// ---------- C03-R21 / C07-R20: the health checker does not dereference an error that may be nil before recording the result ----------
+func init() {
+	registerExtra("C03", func(c *Ctx, r *Report) { extraHealthNilErrorUse(c, r, "C03-R21") })
+	registerExtra("C07", func(c *Ctx, r *Report) { extraHealthNilErrorUse(c, r, "C07-R20") })
+}
+
+func extraHealthNilErrorUse(c *Ctx, r *Report, rule string) {
+	r.Rule(rule, "in the health package every err.Error() (a method call on an error value that is a call result or a parameter) is control-dependent on a test that the value is not nil — in the function itself or at every call site that supplies the parameter. The probe answers (result, nil) whenever an HTTP response arrived, including 4xx/5xx: an unguarded err.Error() on the way to the repository update panics exactly for 'answered but failing' checks, the checker's recover() swallows the panic, and the endpoint keeps its healthy status", 2)
+	errT := types.Universe.Lookup("error").Type()
+	nonNilAt := func(v ssa.Value, b *ssa.BasicBlock) bool {
+		for _, cf := range normFacts(condFacts(b)) {
+			switch x := cf.Cond.(type) {
+			case *ssa.BinOp:
+				if (x.X == v && isNilConst(x.Y)) || (x.Y == v && isNilConst(x.X)) {
+					if (x.Op == token.NEQ) == cf.True {
+						return true
+					}
+				}
+			case *ssa.Call:
+				// errors.As(err, &target) / errors.Is(err, X) true implies err != nil
+				ci := describeCall(&x.Call)
+				if ci.Pkg == "errors" && (ci.Name == "As" || ci.Name == "Is") && cf.True && len(x.Call.Args) > 0 && x.Call.Args[0] == v {
+					return true
+				}
+			}
+		}
+		return false
+	}
+	var guarded func(v ssa.Value, at *ssa.BasicBlock, f *ssa.Function, d int) bool
+	guarded = func(v ssa.Value, at *ssa.BasicBlock, f *ssa.Function, d int) bool {
+		if nonNilAt(v, at) {
+			return true
+		}
+		switch x := v.(type) {
+		case *ssa.Parameter:
+			if d == 0 {
+				return false
+			}
+			idx := -1
+			for i, p := range f.Params {
+				if p == x {
+					idx = i
+				}
+			}
+			sites, all := 0, true
+			for _, g := range c.Funcs {
+				eachInstr(g, func(in ssa.Instruction) {
+					cc := getCall(in)
+					if cc == nil || cc.StaticCallee() != f || idx < 0 || idx >= len(cc.Args) {
+						return
+					}
+					sites++
+					if !guarded(cc.Args[idx], in.Block(), g, d-1) {
+						all = false
+					}
+				})
+			}
+			return sites > 0 && all
+		case *ssa.Phi:
+			for i, e := range x.Edges {
+				if isNilConst(e) {
+					return false
+				}
+				pb := at
+				if i < len(x.Block().Preds) {
+					pb = x.Block().Preds[i]
+				}
+				if !guarded(e, pb, f, d) {
+					return false
+				}
+			}
+			return true
+		case *ssa.MakeInterface:
+			return true // a concrete value wrapped into an error: not nil
+		case *ssa.Call:
+			ci := describeCall(&x.Call)
+			if (ci.Pkg == "fmt" && ci.Name == "Errorf") || (ci.Pkg == "errors" && ci.Name == "New") {
+				return true
+			}
+		}
+		return false
+	}
+	n := 0
+	for _, f := range c.Funcs {
+		if !strings.HasSuffix(fnPkgPath(f), pkgHealth) || f.Blocks == nil {
+			continue
+		}
+		eachInstr(f, func(in ssa.Instruction) {
+			cc := getCall(in)
+			if cc == nil || !cc.IsInvoke() || cc.Method.Name() != "Error" || !types.Identical(cc.Value.Type(), errT) {
+				return
+			}
+			switch cc.Value.(type) {
+			case *ssa.Parameter, *ssa.Extract, *ssa.Phi, *ssa.Call:
+			default:
+				return
+			}
+			n++
+			key := fname(f) + ":err.Error()-guarded"
+			if guarded(cc.Value, in.Block(), f, 3) {
+				r.OK(rule, key, in.Pos(), "dominated by a non-nil test of the error")
+			} else {
+				r.Bad(rule, key, in.Pos(), "err.Error() is called on an error that can be nil here (the probe returns a nil error for every answered check, 4xx/5xx included): the panic is swallowed by the checker's recover() and the failed check is never written to the repository — the endpoint stays in rotation")
+			}
+		})
+	}
+	if n == 0 {
+		r.Triv(rule, "error-method-calls", token.NoPos, "the health package calls Error() on no call result or parameter")
+	}
+	addMutants(Mutant{Prop: rule[:3], Name: "checker-logs-cause-of-nil-error", File: "internal/adapter/health/checker.go", Rule: rule,
+		Old: "	endpointCopy.NextCheckTime = now.Add(nextInterval)\n", New: "	endpointCopy.NextCheckTime = now.Add(nextInterval)\n	if oldStatus.IsRoutable() && !newStatus.IsRoutable() {\n		c.logger.Warn(\"Endpoint leaving rotation\", \"endpoint\", endpoint.Name, \"cause\", err.Error())\n	}\n"})
+}
+
+// ---------- C04-R16 / C02-R16: request-scoped structs recycled through a raw sync.Pool are wiped ----------
+func init() {
+	registerExtra("C04", func(c *Ctx, r *Report) { extraRawPoolWiped(c, r, "C04-R16") })
+	registerExtra("C02", func(c *Ctx, r *Report) { extraRawPoolWiped(c, r, "C02-R16") })
+}
+
+func extraRawPoolWiped(c *Ctx, r *Report, rule string) {
+	r.Rule(rule, "a repo struct that is recycled through a raw sync.Pool (a *T handed to (*sync.Pool).Put) carries no state from one user to the next: every field of T that the repository writes anywhere (outside composite literals) is also written — or the whole value overwritten, or its Reset called — in the function that takes it from the pool, after the Get, or in the function that returns it, before the Put. The retry handler's per-request response tracker is the example: recycled with its `started` flag still set, the next request's first connection failure is taken for 'response already streaming' and is not failed over", 0)
+	type pooled struct {
+		nt  *types.Named
+		pos token.Pos
+	}
+	var types_ []pooled
+	seen := map[*types.Named]bool{}
+	named := func(v ssa.Value) *types.Named {
+		if mi, ok := v.(*ssa.MakeInterface); ok {
+			v = mi.X
+		}
+		pt, ok := v.Type().Underlying().(*types.Pointer)
+		if !ok {
+			return nil
+		}
+		nt, ok := types.Unalias(pt.Elem()).(*types.Named)
+		if !ok || nt.Obj().Pkg() == nil || !strings.HasPrefix(nt.Obj().Pkg().Path(), modPath) {
+			return nil
+		}
+		if _, isStruct := nt.Underlying().(*types.Struct); !isStruct {
+			return nil
+		}
+		return nt
+	}
+	isRawPut := func(in ssa.Instruction) ssa.Value {
+		cc := getCall(in)
+		if cc == nil || cc.IsInvoke() || len(cc.Args) != 2 {
+			return nil
+		}
+		ci := describeCall(cc)
+		if ci.Pkg == "sync" && ci.Recv == "Pool" && ci.Name == "Put" {
+			return cc.Args[1]
+		}
+		return nil
+	}
+	for _, f := range c.Funcs {
+		if !c.inRepo(f) || strings.HasSuffix(fnPkgPath(f), "/pkg/pool") {
+			continue
+		}
+		eachInstr(f, func(in ssa.Instruction) {
+			if v := isRawPut(in); v != nil {
+				if nt := named(v); nt != nil && !seen[nt] {
+					seen[nt] = true
+					types_ = append(types_, pooled{nt, in.Pos()})
+				}
+			}
+		})
+	}
+	if len(types_) == 0 {
+		r.Triv(rule, "raw-pooled-structs", token.NoPos, "no repo struct is recycled through a raw sync.Pool")
+	}
+	for _, pt := range types_ {
+		st := pt.nt.Underlying().(*types.Struct)
+		key := strings.TrimPrefix(pt.nt.Obj().Pkg().Path(), modPath+"/") + "." + pt.nt.Obj().Name() + ":wiped-between-users"
+		// fields written anywhere
+		writtenAny := map[int]token.Pos{}
+		wiped := map[int]bool{}
+		isT := func(v ssa.Value) bool {
+			p, ok := v.Type().Underlying().(*types.Pointer)
+			return ok && types.Identical(types.Unalias(p.Elem()), pt.nt)
+		}
+		for _, f := range c.Funcs {
+			if !c.inRepo(f) || f.Blocks == nil {
+				continue
+			}
+			// does f take T from / return T to a raw pool?
+			boundary := false
+			eachInstr(f, func(in ssa.Instruction) {
+				if v := isRawPut(in); v != nil && named(v) == pt.nt {
+					boundary = true
+				}
+				if ta, ok := in.(*ssa.TypeAssert); ok && isT(ta) {
+					if call, ok := ta.X.(*ssa.Call); ok {
+						if ci := describeCall(&call.Call); ci.Pkg == "sync" && ci.Recv == "Pool" && ci.Name == "Get" {
+							boundary = true
+						}
+					}
+				}
+			})
+			eachInstr(f, func(in ssa.Instruction) {
+				switch x := in.(type) {
+				case *ssa.Store:
+					if fa, ok := x.Addr.(*ssa.FieldAddr); ok && isT(fa.X) {
+						if _, lit := fa.X.(*ssa.Alloc); lit && !boundary {
+							return // composite literal
+						}
+						if boundary {
+							wiped[fa.Field] = true
+						} else {
+							writtenAny[fa.Field] = in.Pos()
+						}
+					}
+					if isT(x.Addr) && boundary { // *t = T{}
+						for i := 0; i < st.NumFields(); i++ {
+							wiped[i] = true
+						}
+					}
+				case *ssa.Call:
+					if boundary && !x.Call.IsInvoke() && len(x.Call.Args) > 0 && isT(x.Call.Args[0]) && describeCall(&x.Call).Name == "Reset" {
+						for i := 0; i < st.NumFields(); i++ {
+							wiped[i] = true
+						}
+					}
+				}
+			})
+		}
+		var missing []string
+		for i := 0; i < st.NumFields(); i++ {
+			if _, w := writtenAny[i]; w && !wiped[i] {
+				missing = append(missing, st.Field(i).Name())
+			}
+		}
+		sort.Strings(missing)
+		if len(missing) > 0 {
+			r.Bad(rule, key, pt.pos, "a "+pt.nt.Obj().Name()+" goes back into a sync.Pool with "+strings.Join(missing, ", ")+" as its last user left it, and the function that takes it out again does not reset it: state of a finished request decides how the next one is handled")
+		} else {
+			r.OK(rule, key, pt.pos, "every field written during use is re-initialised at the pool boundary")
+		}
+	}
+	addMutants(Mutant{Prop: rule[:3], Name: "response-tracker-pooled-with-stale-flag", File: "internal/adapter/proxy/core/retry.go", Rule: rule,
+		Old: "	tracked := &responseTracker{ResponseWriter: w}\n", New: "	tracked, _ := trackerPool.Get().(*responseTracker)\n	if tracked == nil {\n		tracked = new(responseTracker)\n	}\n	tracked.ResponseWriter = w\n	defer trackerPool.Put(tracked)\n",
+		Edits: []Edit{{"internal/adapter/proxy/core/retry.go", "// ErrCircuitOpen is returned (wrapped)", "var trackerPool sync.Pool\n\n// ErrCircuitOpen is returned (wrapped)"}, {"internal/adapter/proxy/core/retry.go", "	\"strings\"\n", "	\"strings\"\n	\"sync\"\n"}}})
+}
+
+// ---------- C07-R21: a probe error is classified as the client returned it ----------
+func init() { registerExtra("C07", extraC07ClassifyWholeError) }
+
+func extraC07ClassifyWholeError(c *Ctx, r *Report) {
+	r.Rule("C07-R21", "the function of the health package that maps a probe's error to a HealthCheckErrorType applies its errors.As / errors.Is tests to the error it was given, not to a cause it extracted from it (a field of a wrapper, errors.Unwrap, a re-assigned variable): http.Client.Do returns every transport failure as a *url.Error, which is a net.Error whatever is underneath — 'connection closed without an answer' (cause io.EOF) is a network failure (offline), and classifying the bare cause books it as an answered-but-bad check (unhealthy) and stops the retries", 1)
+	errT := types.Universe.Lookup("error").Type()
+	n := 0
+	for _, f := range c.Funcs {
+		if !strings.HasSuffix(fnPkgPath(f), pkgHealth) || f.Parent() != nil || f.Blocks == nil {
+			continue
+		}
+		res := f.Signature.Results()
+		if res.Len() != 1 || !isNamed(res.At(0).Type(), pkgDomain, "HealthCheckErrorType") {
+			continue
+		}
+		var ep *ssa.Parameter
+		for _, p := range f.Params {
+			if types.Identical(p.Type(), errT) {
+				ep = p
+			}
+		}
+		if ep == nil {
+			continue
+		}
+		n++
+		key := fname(f) + ":classifies-the-error-it-was-given"
+		var bad ssa.Instruction
+		tests := 0
+		eachInstr(f, func(in ssa.Instruction) {
+			cc := getCall(in)
+			if cc == nil || len(cc.Args) == 0 {
+				return
+			}
+			ci := describeCall(cc)
+			if ci.Pkg != "errors" || (ci.Name != "As" && ci.Name != "Is") {
+				return
+			}
+			tests++
+			if cc.Args[0] != ssa.Value(ep) && bad == nil {
+				bad = in
+			}
+		})
+		switch {
+		case bad != nil:
+			r.Bad("C07-R21", key, bad.Pos(), "an errors.As / errors.Is test is applied to something other than the error the function was given (an extracted or re-assigned cause): a *url.Error around a non-net cause — connection accepted and dropped, io.EOF — is no longer recognised as a network failure, so the endpoint is marked unhealthy instead of offline")
+		case tests > 0:
+			r.OK("C07-R21", key, f.Pos(), fmt.Sprintf("%d tests, all on the error as returned by the client", tests))
+		default:
+			r.Triv("C07-R21", key, f.Pos(), "no errors.As / errors.Is test")
+		}
+	}
+	if n == 0 {
+		r.Undecided("C07-R21", "probe-error-classifier", token.NoPos, "no function error → HealthCheckErrorType found in the health package")
+	}
+	addMutants(Mutant{Prop: "C07", Name: "classifier-looks-at-unwrapped-cause", File: "internal/adapter/health/client.go", Rule: "C07-R21",
+		Old: "	var netErr net.Error\n	if errors.As(err, &netErr) {\n		if netErr.Timeout() {\n			return domain.ErrorTypeTimeout", New: "	if inner := errors.Unwrap(err); inner != nil {\n		err = inner\n	}\n	var netErr net.Error\n	if errors.As(err, &netErr) {\n		if netErr.Timeout() {\n			return domain.ErrorTypeTimeout"})
+}
+
+// ---------- C08-R14: a breaker decides on the state it stored ----------
+func init() { registerExtra("C08", extraC08DecidesOnStoredState) }
+
+func extraC08DecidesOnStoredState(c *Ctx, r *Report) {
+	r.Rule("C08-R14", "in the unifier's circuit breaker, every comparison of 'the state' with a state constant inside the deciding methods (Allow, RecordSuccess, RecordFailure) is made on the stored state — the atomic load of the state field, possibly through an accessor whose every answer is that load. A computed view that already folds the elapsed open time into its answer ('effectively half-open') makes the open→half-open transition code unreachable: the probe counter is never re-armed, and after HalfOpenRequests failed probes in total the breaker refuses for ever", 3)
+	const owner = "CircuitBreaker"
+	pkgU := "internal/adapter/unifier"
+	var stored func(v ssa.Value, d int) bool
+	stored = func(v ssa.Value, d int) bool {
+		if v == nil || d == 0 {
+			return false
+		}
+		switch x := v.(type) {
+		case *ssa.Convert:
+			return stored(x.X, d-1)
+		case *ssa.ChangeType:
+			return stored(x.X, d-1)
+		case *ssa.Call:
+			ci := describeCall(&x.Call)
+			if ci.Pkg == "sync/atomic" && ci.Name == "Load" && len(x.Call.Args) > 0 && isField(x.Call.Args[0], pkgU, owner, "state") {
+				return true
+			}
+			if sc := x.Call.StaticCallee(); sc != nil && c.inRepo(sc) && sc.Blocks != nil && sc.Signature.Results().Len() == 1 {
+				rs := flatResults(sc, 0)
+				for _, rv := range rs {
+					if !stored(rv, d-1) {
+						return false
+					}
+				}
+				return len(rs) > 0
+			}
+		case *ssa.Phi:
+			for _, e := range x.Edges {
+				if !stored(e, d-1) {
+					return false
+				}
+			}
+			return len(x.Edges) > 0
+		}
+		return false
+	}
+	n := 0
+	for _, name := range []string{"Allow", "RecordSuccess", "RecordFailure"} {
+		f := c.Fn(pkgU, "(*"+owner+")."+name)
+		if f == nil {
+			r.Unresolved("C08-R14", "unifier.(*CircuitBreaker)."+name)
+			continue
+		}
+		key := fname(f) + ":switches-on-stored-state"
+		var bad ssa.Instruction
+		cmp := 0
+		eachInstr(f, func(in ssa.Instruction) {
+			bo, ok := in.(*ssa.BinOp)
+			if !ok || (bo.Op != token.EQL && bo.Op != token.NEQ) {
+				return
+			}
+			for _, pr := range [][2]ssa.Value{{bo.X, bo.Y}, {bo.Y, bo.X}} {
+				k, isK := pr[1].(*ssa.Const)
+				if !isK || !isNamed(k.Type(), pkgU, "CircuitBreakerState") {
+					continue
+				}
+				cmp++
+				if !stored(pr[0], 5) && bad == nil {
+					bad = in
+				}
+			}
+		})
+		n++
+		switch {
+		case bad != nil:
+			r.Bad("C08-R14", key, bad.Pos(), "the method compares a computed view of the state (not the stored state field) with a state constant: a view that reports 'half-open' as soon as the open time has run out skips the transition that re-arms the probe budget — the breaker ends up refusing for ever")
+		case cmp > 0:
+			r.OK("C08-R14", key, f.Pos(), fmt.Sprintf("%d comparison(s), all on the stored state", cmp))
+		default:
+			r.Undecided("C08-R14", key, f.Pos(), "no comparison with a state constant found")
+		}
+	}
+	addMutants(Mutant{Prop: "C08", Name: "breaker-decides-on-effective-state", File: "internal/adapter/unifier/circuit_breaker.go", Rule: "C08-R14",
+		Old: "func (cb *CircuitBreaker) GetState() CircuitBreakerState {\n	return CircuitBreakerState(cb.state.Load())\n}", New: "func (cb *CircuitBreaker) GetState() CircuitBreakerState {\n	s := CircuitBreakerState(cb.state.Load())\n	if s == CircuitOpen && cb.config.OpenDuration > 0 && time.Since(time.Unix(0, cb.lastFailureTime.Load())) > cb.config.OpenDuration {\n		return CircuitHalfOpen\n	}\n	return s\n}",
+		Edits: []Edit{{"internal/adapter/unifier/circuit_breaker.go", "func (cb *CircuitBreaker) Allow() bool {\n	if !cb.config.Enabled {\n		return true\n	}\n\n	state := CircuitBreakerState(cb.state.Load())", "func (cb *CircuitBreaker) Allow() bool {\n	if !cb.config.Enabled {\n		return true\n	}\n\n	state := cb.GetState()"}}})
+}
+
+// ---------- C09-R17: "unavailable" (503) is only said of a model some endpoint lists ----------
+func init() { registerExtra("C09", extraC09UnavailableNeedsListing) }
+
+func extraC09UnavailableNeedsListing(c *Ctx, r *Report) {
+	r.Rule("C09-R17", "a rejection with reason model_unavailable / model_unavailable_no_fallback / model_unavailable_compatible_only (answered 503: 'only unhealthy endpoints list it') is built only where the model→endpoints lookup is known to be non-empty (control-dependent on len(modelEndpoints) > 0 for the []string the lookup returned): a shortcut that rejects before consulting the lookup — 'no healthy endpoint, nothing to select from' — answers 503 for a model that no endpoint lists at all, which the property answers with 404 not-found", 3)
+	reasons := map[string]bool{}
+	for _, name := range []string{"RoutingReasonModelUnavailable", "RoutingReasonModelUnavailableNoFallback", "RoutingReasonModelUnavailableCompatibleOnly"} {
+		if v, ok := c.ConstVal("internal/core/constants", name); ok {
+			reasons[strings.Trim(v.ExactString(), "\"")] = true
+		}
+	}
+	if len(reasons) == 0 {
+		r.Unresolved("C09-R17", "constants.RoutingReasonModelUnavailable*")
+		return
+	}
+	isStrings := func(t types.Type) bool {
+		sl, ok := t.Underlying().(*types.Slice)
+		if !ok {
+			return false
+		}
+		b, ok := sl.Elem().Underlying().(*types.Basic)
+		return ok && b.Kind() == types.String
+	}
+	n := 0
+	for _, f := range c.Funcs {
+		if !c.inRepo(f) || f.Blocks == nil {
+			continue
+		}
+		eachInstr(f, func(in ssa.Instruction) {
+			cc := getCall(in)
+			if cc == nil || cc.IsInvoke() || len(cc.Args) != 3 {
+				return
+			}
+			ci := describeCall(cc)
+			if ci.Name != "NewRoutingDecision" {
+				return
+			}
+			reason, ok := constString(cc.Args[2])
+			if !ok || !reasons[reason] {
+				return
+			}
+			n++
+			key := fmt.Sprintf("%s:%s-needs-listing", fname(f), reason)
+			listed := false
+			for _, cf := range normFacts(condFacts(in.Block())) {
+				bo, ok := cf.Cond.(*ssa.BinOp)
+				if !ok {
+					continue
+				}
+				for _, side := range []ssa.Value{bo.X, bo.Y} {
+					if call, ok := stripConv(side).(*ssa.Call); ok {
+						if bi, ok := call.Call.Value.(*ssa.Builtin); ok && bi.Name() == "len" && len(call.Call.Args) == 1 && isStrings(call.Call.Args[0].Type()) {
+							if lenAtLeast(call.Call.Args[0], 1, in.Block()) {
+								listed = true
+							}
+						}
+					}
+				}
+			}
+			if listed {
+				r.OK("C09-R17", key, in.Pos(), "built only where the lookup returned at least one endpoint")
+			} else {
+				r.Bad("C09-R17", key, in.Pos(), "a 503 '"+reason+"' rejection is built on a path where the model→endpoints lookup was not consulted or may be empty: a request for a model that no endpoint lists is answered 'unavailable' instead of 404 not-found")
+			}
+		})
+	}
+	if n == 0 {
+		r.Undecided("C09-R17", "unavailable-rejections", token.NoPos, "no NewRoutingDecision with a model_unavailable reason found")
+	}
+	addMutants(Mutant{Prop: "C09", Name: "reject-unavailable-before-lookup", File: "internal/adapter/registry/routing/strict_strategy.go", Rule: "C09-R17",
+		Old: "	// no endpoints have the model\n	if len(modelEndpoints) == 0 {", New: "	if len(healthyEndpoints) == 0 {\n		return nil, ports.NewRoutingDecision(s.Name(), ports.RoutingActionRejected, constants.RoutingReasonModelUnavailable), domain.NewModelRoutingError(modelName, s.Name(), \"rejected\", 0, modelEndpoints, fmt.Errorf(\"no healthy endpoints\"))\n	}\n	// no endpoints have the model\n	if len(modelEndpoints) == 0 {"})
+}
+
+// ---------- C10-R19: a filter is invalid only because one of its patterns is ----------
+func init() { registerExtra("C10", extraC10ValidateIsPerPattern) }
+
+func extraC10ValidateIsPerPattern(c *Ctx, r *Report) {
+	r.Rule("C10-R19", "every error FilterConfig.Validate returns is the verdict of the per-pattern syntax check on ONE pattern (the return is control-dependent on validatePattern(p) != nil): the glob filter runs Validate on every Apply and model discovery carries on with the UNFILTERED listing when Apply fails, so declaring a well-formed pattern set invalid for a relation between its patterns (a pattern on both sides, an include shadowed by an exclude) silently switches that endpoint's filter off — every listed model is attributed", 2)
+	f := c.Fn(pkgDomain, "(*FilterConfig).Validate")
+	if f == nil {
+		r.Unresolved("C10-R19", "domain.(*FilterConfig).Validate")
+		return
+	}
+	errT := types.Universe.Lookup("error").Type()
+	perPattern := func(v ssa.Value) bool {
+		call, ok := v.(*ssa.Call)
+		if !ok {
+			return false
+		}
+		sc := call.Call.StaticCallee()
+		if sc == nil || !c.inRepo(sc) || sc.Signature.Params().Len() != 1 || sc.Signature.Results().Len() != 1 {
+			return false
+		}
+		pb, ok := sc.Signature.Params().At(0).Type().Underlying().(*types.Basic)
+		return ok && pb.Kind() == types.String && types.Identical(sc.Signature.Results().At(0).Type(), errT)
+	}
+	n := 0
+	for _, vr := range virtualReturns(f, 0) {
+		if isNilConst(vr.Val) {
+			continue
+		}
+		n++
+		key := fmt.Sprintf("%s:error-return-%d-is-a-pattern-verdict", fname(f), n)
+		ok := false
+		for _, cf := range normFacts(append(append([]condFact{}, vr.Facts...), condFacts(vr.At.Block())...)) {
+			bo, isB := cf.Cond.(*ssa.BinOp)
+			if !isB || (bo.Op != token.NEQ && bo.Op != token.EQL) {
+				continue
+			}
+			for _, pr := range [][2]ssa.Value{{bo.X, bo.Y}, {bo.Y, bo.X}} {
+				if perPattern(pr[0]) && isNilConst(pr[1]) && (bo.Op == token.NEQ) == cf.True {
+					ok = true
+				}
+			}
+		}
+		if ok {
+			r.OK("C10-R19", key, retPos(f, vr.Ret), "returned because the per-pattern check rejected a pattern")
+		} else {
+			r.Bad("C10-R19", key, retPos(f, vr.Ret), "Validate rejects the filter for a reason other than a malformed pattern: Apply then fails on every discovery and the endpoint's listing is registered unfiltered")
+		}
+	}
+	if n == 0 {
+		r.Undecided("C10-R19", fname(f)+":error-returns", f.Pos(), "Validate has no error return")
+	}
+	addMutants(Mutant{Prop: "C10", Name: "validate-rejects-overlapping-patterns", File: "internal/core/domain/filter.go", Rule: "C10-R19",
+		Old: "	for _, pattern := range fc.Exclude {\n		if err := validatePattern(pattern); err != nil {\n			return fmt.Errorf(\"invalid exclude pattern '%s': %w\", pattern, err)\n		}\n	}\n", New: "	for _, pattern := range fc.Exclude {\n		if err := validatePattern(pattern); err != nil {\n			return fmt.Errorf(\"invalid exclude pattern '%s': %w\", pattern, err)\n		}\n		for _, inc := range fc.Include {\n			if inc == pattern {\n				return fmt.Errorf(\"pattern '%s' is both included and excluded\", pattern)\n			}\n		}\n	}\n"})
+}
+
+// wave-7 aliases: clauses of one property that another property's rule already decides
+func init() {
+	// C02: one round trip per attempt — a "replay" inside the attempt sends a second backend's body after the first one's
+	// status and headers
+	registerExtra("C02", func(c *Ctx, r *Report) {
+		r.WithAlias(map[string]string{"C04-R6": "C02-R17"}, func() { checkC04(c, r) })
+	})
+	// C03: the engines never follow a backend's redirect themselves (the Location target is outside the candidate set)
+	registerExtra("C03", func(c *Ctx, r *Report) {
+		r.WithAlias(map[string]string{"C01-R12": "C03-R22"}, func() { extraC01NoClient(c, r) })
+	})
+	// C04: the request re-sent on failover carries the same headers: no in-place edit of value slices shared with the
+	// inbound request (each failed attempt would leave another hop behind)
+	registerExtra("C04", func(c *Ctx, r *Report) {
+		r.WithAlias(map[string]string{"C15-R5": "C04-R17"}, func() { checkC15(c, r) })
+	})
+	// C05: a routing rejection reaches the client as the rejection (the provider handler does not replace an empty
+	// refinement by the unrefined list); C05: the backend's status is committed when the attempt commits (C02-R1)
+	registerExtra("C05", func(c *Ctx, r *Report) {
+		r.WithAlias(map[string]string{"C09-R6": "C05-R15"}, func() { checkC09(c, r) })
+	})
+	registerExtra("C05", func(c *Ctx, r *Report) {
+		r.WithAlias(map[string]string{"C02-R1": "C05-R16"}, func() { checkC02(c, r) })
+	})
+	// C07: the re-discovery a recovery triggers always registers what the endpoint answered
+	registerExtra("C07", func(c *Ctx, r *Report) { extraListingAlwaysRegistered(c, r, "C07-R22") })
+	// C09: the unifier detaches every old attribution before merging a new listing (routing by alias follows it)
+	registerExtra("C09", func(c *Ctx, r *Report) {
+		r.WithAlias(map[string]string{"C10-R10": "C09-R18"}, func() { extraC10UnifierTeardown(c, r) })
+	})
+	// C10: a listing on its way to the registry does not live in a pooled buffer that is already back in its pool
+	registerExtra("C10", func(c *Ctx, r *Report) {
+		r.WithAliasOnly(map[string]string{"C01-R1": "C10-R20"}, func(construct string) bool {
+			return strings.Contains(construct, "/adapter/discovery") || strings.Contains(construct, "/adapter/registry") || strings.Contains(construct, "/adapter/unifier")
+		}, func() { checkC01(c, r) })
+	})
+}
